@@ -337,6 +337,11 @@ pub fn big_cases(rng: &mut Rng, thorough: bool) -> Vec<(&'static str, Vec<u32>, 
             let nw = cat(&[&pre, &junk(rng, n1, 80000), &sh1, &junk(rng, ln - n1 - n2, 82000), &sh2, &junk(rng, n2, 84000), &suf]);
             v.push(("distinct_big_middle", o, nw));
         }
+        // runs of repeated items with a few boundary edits
+        for _ in 0..3 {
+            let (a, b) = gen::runny_ints(rng);
+            v.push(("runny", a, b));
+        }
         // near identical, long
         let a: Vec<u32> = (0..n as u32).collect();
         let e = rng.range(1, 6);
